@@ -18,6 +18,7 @@ DECIDED += "; R7 exhaustive scans: Sim::crash, Sim::run_with_hosts and IoUringHo
 DECIDED += "; R8 peers are told: an abandoned, already answered connect resets the peer's stream; a RST wakes a writer parked on flow control (recorded finding D32)"
 DECIDED += '; R2 also: the FIN is remembered as EOF on both read paths (read and peek; shared C02-R3)'
 DECIDED += "; R2 also: Rt::crash cancels the host's tasks on every path, whether or not the main future is still running; R9 crash / bounce drop the tasks with the host's filesystem entered (recorded finding D56); Fs::crash also drops the page cache (shared C07-R2)"
+DECIDED += "; R5 also: the software factory is called inside the closure handed to rt::with; R10 = C05-R11 (the old incarnation's destructors run inside the *old* runtime); groups survive the drop of one member (shared C09-R12)"
 ASSUMPTIONS = ["dropping a tokio Runtime and LocalSet drops every task they own"]
 
 
